@@ -381,6 +381,24 @@ func TestC12ViaMain(t *testing.T) {
 	})
 }
 
+// TestC12DupMain: fixed configurations with a duplicated origin must make Main itself
+// refuse to start (cheap when it does: Main returns at once).
+func TestC12DupMain(t *testing.T) {
+	st := vlib.StatsFor("C12", "id-dup-main", "fixed configurations in which two entries share an origin (same key / other key, first / last entry), started through Main: it must return an error instead of serving; non-trivial = any")
+	for _, c := range []*IdentCase{
+		{Origins: []string{"example.com/log"}, KeyIdx: []int{0}, Dup: 0, ViaMain: true},
+		{Origins: []string{"example.com/log", "example.com/log2", "rekor.sigstore.dev - 1193050959916656506"}, KeyIdx: []int{0, 1, 1}, Dup: 2, ViaMain: true},
+		{Origins: []string{"a", "A", "лог/α"}, KeyIdx: []int{0, 0, 2}, Dup: 0, ViaMain: true},
+	} {
+		nt, cl, err := runIdent(c)
+		st.Record(identHash(c), nt, cl, vlib.SampleOf(c))
+		if err != nil {
+			vlib.SaveFailure("C12", "id-dup-main", c, err)
+			t.Fatalf("C12 violated: %v", err)
+		}
+	}
+}
+
 var _ = bytes.Equal
 
 func init() {
@@ -394,4 +412,5 @@ func init() {
 	}
 	vlib.Replayers["C12/id-static"] = r
 	vlib.Replayers["C12/id-main"] = r
+	vlib.Replayers["C12/id-dup-main"] = r
 }
